@@ -168,23 +168,23 @@ Lemma consume_cap_stop tau m cap nt g d st k n :
 Proof.
   revert d st k. induction g as [|t g IH]; intros d st k H; cbn [consume_cap] in H; [discriminate|].
   assert (Hstep : forall k', k < k' -> S (k' - S k) = k' - k) by (intros; lia).
-  destruct (cap_allows tau cap st t) as [[|]|] eqn:Ea; try discriminate.
-  - destruct (relevant tau m t) eqn:Er.
+  destruct (relevant tau m t) eqn:Er.
+  - destruct (cap_allows tau cap st t) as [[|]|] eqn:Ea; try discriminate.
     + destruct (to t) as [o|] eqn:Eo; [|discriminate].
       destruct nt as [nt'|].
       * match type of H with (if ?b then _ else _) = _ => destruct b eqn:Eb end.
         -- inversion H; subst n. split; [lia|]. replace (S k - k) with 1 by lia.
-           cbn [firstn track_cap]. rewrite Ea, Er, Eo, Eb. reflexivity.
+           cbn [firstn track_cap]. rewrite Er, Ea, Eo, Eb. reflexivity.
         -- pose proof (fun d' => IH d' _ _ H) as IH'. split; [destruct (IH' d); lia|].
-           rewrite <- (Hstep n) by (destruct (IH' d); lia). cbn [firstn track_cap]. rewrite Ea, Er, Eo, Eb.
+           rewrite <- (Hstep n) by (destruct (IH' d); lia). cbn [firstn track_cap]. rewrite Er, Ea, Eo, Eb.
            apply (proj2 (IH' _)).
       * pose proof (fun d' => IH d' _ _ H) as IH'. split; [destruct (IH' d); lia|].
-        rewrite <- (Hstep n) by (destruct (IH' d); lia). cbn [firstn track_cap]. rewrite Ea, Er, Eo.
+        rewrite <- (Hstep n) by (destruct (IH' d); lia). cbn [firstn track_cap]. rewrite Er, Ea, Eo.
         apply (proj2 (IH' _)).
     + destruct (IH d _ _ H) as [Hk E]. split; [lia|].
-      rewrite <- (Hstep n) by lia. cbn [firstn track_cap]. rewrite Ea, Er. apply E.
+      rewrite <- (Hstep n) by lia. cbn [firstn track_cap]. rewrite Er, Ea. apply E.
   - destruct (IH d _ _ H) as [Hk E]. split; [lia|].
-    rewrite <- (Hstep n) by lia. cbn [firstn track_cap]. rewrite Ea. apply E.
+    rewrite <- (Hstep n) by lia. cbn [firstn track_cap]. rewrite Er. apply E.
 Qed.
 
 Lemma consumption_stop_track tau m cap g n :
